@@ -563,7 +563,7 @@ func validStr(v []bool) string {
 func (o *Outcome) Digest() string {
 	dev := ""
 	if o.Dev != nil {
-		dev = fmt.Sprintf("calls=%d asked=%v gave=%v delivered=%d err=%d", o.Dev.Calls, o.Dev.Asked, o.Dev.Gave, o.Dev.Delivered, o.Dev.ErrKind)
+		dev = fmt.Sprintf("delivered=%d err=%d", o.Dev.Delivered, o.Dev.ErrKind)
 	}
 	if o.NilRd {
 		// How an implementation consumes crypto/rand.Reader (how much, when,
